@@ -79,6 +79,7 @@ type Response struct {
 	Issuer       *string
 	HasStatus    bool
 	StatusCode   *string
+	SubStatus    *string // second-level StatusCode nested in the first
 	// LogoutRequest only
 	NameID       *string
 	SessionIndex *string
